@@ -142,6 +142,7 @@ func (a *TermsCalculator) Finish() {
 
 	var notOther int
 	for _, bucket := range a.bucketsList {
+		bucket.Finish()
 		notOther += int(bucket.Aggregations()["count"].(search.MetricCalculator).Value())
 	}
 	a.other = a.total - notOther
